@@ -128,7 +128,7 @@ def spec(tier, seed):
         fn = "h%d" % n
         L = ["T_%s = %r" % (fn, text), "B_%s = baseline(T_%s)" % (fn, fn),
              "def %s(ch: List[int]) -> bool:" % fn, '    """',
-             "    pre: len(ch) <= %d and all(0 <= c <= %d for c in ch)" % ((2, 3) if tier == "quick" else (5, 4)),
+             "    pre: len(ch) <= %d and all(0 <= c <= %d for c in ch)" % ((2, 3) if tier == "quick" else (3, 3)),
              "    post: _", '    """', "    return det_agree(T_%s, B_%s, ch)" % (fn, fn)]
         obs.append(Ob(fn, "\n".join(L), sample=text, group="programs"))
     tw = "\n".join(["T_twin0 = %r" % progs[0], "B_twin0 = baseline(T_twin0)", "def twin0(ch: List[int]) -> bool:", '    """', "    pre: len(ch) <= 2 and all(0 <= c <= 2 for c in ch)",
@@ -164,7 +164,7 @@ def spec(tier, seed):
                               "hy.model_patterns, hy.reader (parsing of the program text)"],
         "bounds": "%d programs heavy in nonlocal/global (1-5 names), let, comprehensions with leaked names, except clauses, match, defclass, macros, imports; every `set`/`frozenset` "
                   "created by name in %s iterates in an order chosen by the first %d solver integers (each 0..%d; later iterations use the canonical order)"
-                  % (len(progs), ndset.MODULES, 2 if tier == "quick" else 5, 3 if tier == "quick" else 4),
+                  % (len(progs), ndset.MODULES, 2 if tier == "quick" else 3, 3),
         "outside": "sets not created through the names set/frozenset (set operators on dict views etc.) are only seen by the real-hash-seed runs on 7 programs; orders that need more choice points than stated; dict ordering (insertion-ordered, deterministic); sets created by set displays/comprehensions listed by the audit; "
                    "id()-dependent ordering",
         "stubs": ["set/frozenset names rebound in the compile-path modules (vf/ndset.py)", "crosshair.util.getsourcelines wrapper"],
